@@ -27,6 +27,9 @@ type c15Case struct {
 	BadAt  int    `json:"bad_at,omitempty"` // 1-based: that element of the literal is one its type cannot hold (0 = none)
 	// SameLine, when set, is a message name written before the item ON THE SAME LINE (positions are counted in characters)
 	SameLine string `json:"same_line,omitempty"`
+	// After, when set, puts another complete message with a size violation of its own BEFORE this one in the same
+	// text: every violated declaration is reported, not only the first
+	After bool `json:"after,omitempty"`
 }
 
 // badElement is a well-formed number that the item type cannot represent: it is written, so it is counted.
@@ -164,10 +167,27 @@ func checkC15(c c15Case) (ci caseInfo, err error) {
 		text = "S1F1 W H->E " + c.SameLine + " " + strings.TrimPrefix(text, "S1F1 W\n")
 		ci.label("item-on-the-header-line")
 	}
-	off := strings.Index(text, decl)
+	if c.After {
+		text = "S9F9 H->E\n<L\n  <U2[3] 1 2>\n>\n.\n" + text
+		ci.label("after-a-message-with-its-own-violation")
+	}
+	off := strings.LastIndex(text, decl)
 	line, col := lineCol(text, off)
 	msgs, errs, _ := sml.Parse(text)
 	ok := within(c.Count, lo, hi)
+	if c.After {
+		// the earlier message is in error whatever this one does: only the position of this one's report is checked
+		if len(msgs) != 0 || !hasErrorAt(errs, 3, 6) {
+			return ci, fmt.Errorf("earlier message with <U2[3] 1 2>: want its error at Ln 3, Col 6 and no message, got %d message(s), errors %q", len(msgs), errs)
+		}
+		if !ok && !hasErrorAt(errs, line, col) {
+			return ci, fmt.Errorf("count %d lies outside %s in a message that follows one with an error of its own: errors %q, none at this declaration (Ln %d, Col %d)\n%s", c.Count, decl, errs, line, col, text)
+		}
+		if ok && hasErrorAt(errs, line, col) {
+			return ci, fmt.Errorf("count %d lies within %s but an error is reported at the declaration (Ln %d, Col %d): %q", c.Count, decl, line, col, errs)
+		}
+		return ci, nil
+	}
 	near := func(b *big.Int) bool {
 		if b == nil {
 			return false
@@ -462,6 +482,9 @@ func TestC15(t *testing.T) {
 		}
 		if c.AsVar {
 			c.Kind = model.A
+		}
+		if !c.AsVar && rapid.IntRange(0, 5).Draw(t, "after") == 5 {
+			c.After = true
 		}
 		if rapid.IntRange(0, 4).Draw(t, "sameLine") == 4 {
 			c.SameLine = rapid.SampledFrom([]string{"name", "Größe", "a✉b", "名前", "x", "😀", "ıſ", "n\u00e9"}).Draw(t, "sameLineName")
